@@ -108,27 +108,52 @@ def shrink(ctx: ctxmod.Ctx, camp: Campaign, key: str, n: int, seed: int, budget_
 
 
 def _shard_entry(args):
-    modname, tier, seed, shard, nshards = args
+    modname, tier, seed, shard, nshards, out = args
     import importlib
+    import pickle
 
     mod = importlib.import_module(modname)
     sub = ctxmod.Ctx(mod.ID, tier, seed, getattr(mod, 'LEVEL', 'exploration'))
     sub.extra['shard'] = shard
     mod.explore(sub, shard, nshards)
     sub.extra.pop('shard', None)
-    return sub.export()
+    with open(out + '.tmp', 'wb') as fh:
+        pickle.dump(sub.export(), fh, protocol=4)
+    os.replace(out + '.tmp', out)
 
 
 def shard(ctx: ctxmod.Ctx, mod, nshards: int) -> None:
-    """Run ``mod.explore(ctx, shard, nshards)`` in ``nshards`` forked processes and merge the results in shard order."""
+    """Run ``mod.explore(ctx, shard, nshards)`` in ``nshards`` forked (non-daemonic: shards may start their own worker
+    processes) processes, at most one per core at a time, and merge the results in shard order."""
+    import pickle
+
     if nshards <= 1:
         mod.explore(ctx, 0, 1)
         return
     mp = multiprocessing.get_context('fork')
-    with mp.Pool(min(nshards, os.cpu_count() or 1)) as pool:
-        parts = pool.map(_shard_entry, [(mod.__name__, ctx.tier, ctx.seed, k, nshards) for k in range(nshards)], 1)
-    for part in parts:
-        ctx.merge(part)
+    width = min(nshards, os.cpu_count() or 1)
+    outs = [os.path.join(ctx.scratch, f'shard-{mod.ID}-{k}.pkl') for k in range(nshards)]
+    pending = list(range(nshards))
+    running: dict[int, typing.Any] = {}
+    failed = []
+    while pending or running:
+        while pending and len(running) < width:
+            k = pending.pop(0)
+            proc = mp.Process(target=_shard_entry, args=((mod.__name__, ctx.tier, ctx.seed, k, nshards, outs[k]),), daemon=False)
+            proc.start()
+            running[k] = proc
+        for k, proc in list(running.items()):
+            proc.join(0.2)
+            if proc.exitcode is not None:
+                del running[k]
+                if proc.exitcode != 0 or not os.path.exists(outs[k]):
+                    failed.append((k, proc.exitcode))
+    if failed:
+        raise HarnessError(f'shard(s) failed: {failed}')
+    for out in outs:
+        with open(out, 'rb') as fh:
+            ctx.merge(pickle.load(fh))
+        os.remove(out)
 
 
 __all__ = ['Campaign', 'HarnessError', 'run_campaign', 'shrink', 'shard', 'st']
